@@ -6,6 +6,7 @@ package gen
 
 import (
 	"fmt"
+	"strings"
 
 	"pgregory.net/rapid"
 	"verif/sim/internal/scen"
@@ -78,10 +79,28 @@ func meta(t *rapid.T, label string, mode int, utf8only bool, many bool) []scen.K
 	n := rapid.IntRange(0, maxN).Draw(t, label+".n")
 	var out []scen.KV
 	seen := map[scen.Str]bool{}
+	// key families: keys that differ early, only at the 9th byte, only at the very end of a long
+	// common prefix, or by length alone (one a prefix of the other)
+	family := 0
+	if many {
+		family = rapid.IntRange(0, 4).Draw(t, label+".family")
+	}
 	for i := 0; i < n; i++ {
 		var k scen.Str
 		if many {
-			k = scen.Str(fmt.Sprintf("key%03d", rapid.IntRange(0, 200).Draw(t, label+".k")))
+			j := rapid.IntRange(0, 200).Draw(t, label+".k")
+			switch family {
+			case 1:
+				k = scen.Str(fmt.Sprintf("sensor_0%d_gain", j%10))
+			case 2:
+				k = scen.Str(fmt.Sprintf("a/rather/long/common/prefix/of/thirty-two+/%03d", j))
+			case 3:
+				k = scen.Str(strings.Repeat("k", 1+j%20))
+			case 4:
+				k = scen.Str(fmt.Sprintf("%03d-key-with-the-difference-in-front", j))
+			default:
+				k = scen.Str(fmt.Sprintf("key%03d", j))
+			}
 		} else {
 			k = str(t, label+".k", mode, utf8only)
 		}
@@ -382,7 +401,7 @@ func Cfg(t *rapid.T, lim Limits) scen.Cfg {
 				c.Level = 1
 			}
 			if !lim.NoCustom && rapid.IntRange(0, 9).Draw(t, "custom") == 0 {
-				c.Custom = pick(t, "custom.kind", "xor", "flate", "nonce", "eager", "xorlong")
+				c.Custom = pick(t, "custom.kind", "xor", "flate", "nonce", "eager", "xorlong", "byolz4")
 				// a caller-supplied compressor takes precedence over whatever built-in
 				// format the options also name
 				if rapid.Bool().Draw(t, "custom.keep_builtin") {
